@@ -59,6 +59,8 @@ type childState struct {
 	resume    int
 	only      int
 	progress  *os.File
+	lastBeat  time.Time
+	beats     uint64
 	viol      map[string]*shardMsg
 	add       map[string]int64
 	keys      map[string]struct{}
@@ -354,7 +356,7 @@ func (r *Run) runWorker(k, of, resume, only int, dir string, wd time.Duration, o
 	stall := make(chan int, 1)
 	stop := make(chan struct{})
 	go func() {
-		last, since := int64(-1), time.Now()
+		last, lastBeat, since := int64(-1), int64(-1), time.Now()
 		t := time.NewTicker(250 * time.Millisecond)
 		defer t.Stop()
 		for {
@@ -362,9 +364,9 @@ func (r *Run) runWorker(k, of, resume, only int, dir string, wd time.Duration, o
 			case <-stop:
 				return
 			case <-t.C:
-				cur := readProgress(prog)
-				if cur != last {
-					last, since = cur, time.Now()
+				cur, beat := readProgress(prog), readBeat(prog)
+				if cur != last || beat != lastBeat {
+					last, lastBeat, since = cur, beat, time.Now()
 				} else if cur > 0 && time.Since(since) > wd {
 					stall <- int(cur - 1)
 					cmd.Process.Signal(syscall.SIGKILL)
@@ -392,6 +394,32 @@ func (r *Run) runWorker(k, of, resume, only int, dir string, wd time.Duration, o
 		return true, int(cur - 1), "exit", errTail.String()
 	}
 	return false, 0, "", ""
+}
+
+// Heartbeat tells the watchdog that the case in flight is making progress (explorations of many
+// executions per case call it once per execution; at most one write per 200 ms). A case that
+// neither finishes nor beats for the watchdog period is a stall.
+func (r *Run) Heartbeat() {
+	c := r.child
+	if c == nil || c.progress == nil {
+		return
+	}
+	if now := time.Now(); now.Sub(c.lastBeat) > 200*time.Millisecond {
+		c.lastBeat = now
+		c.beats++
+		var buf [8]byte
+		binary.LittleEndian.PutUint64(buf[:], c.beats)
+		c.progress.WriteAt(buf[:], 8)
+	}
+}
+
+// readBeat is the heartbeat counter of the progress file.
+func readBeat(path string) int64 {
+	b, err := os.ReadFile(path)
+	if err != nil || len(b) < 16 {
+		return 0
+	}
+	return int64(binary.LittleEndian.Uint64(b[8:]))
 }
 
 func readProgress(path string) int64 {
